@@ -31,9 +31,10 @@ type funcCtx struct {
 type Summ struct {
 	P                *Prog
 	Target           FnPred
-	SiteTarget       func(ssa.CallInstruction) bool // optional: a call site that is the event itself
-	AllowEmptyGuards bool                           // tolerate nil/empty guards on the operands of the required call
-	LoopsRunOnce     bool                           // a for-each loop whose body must trigger the event counts as triggering it
+	SiteTarget       func(ssa.CallInstruction) bool  // optional: a call site that is the event itself
+	AllowEmptyGuards bool                            // tolerate nil/empty guards on the operands of the required call
+	LoopsRunOnce     bool                            // a for-each loop whose body must trigger the event counts as triggering it
+	ExtraBlocked     func(*ssa.BasicBlock, int) bool // rule-specific tolerated guard edges, applied in every function analysed
 	MaxDepth         int
 	mustMemo         map[funcCtx]int // 1 in progress, 2 true, 3 false
 	canReach         map[*ssa.Function]bool
@@ -208,7 +209,7 @@ func (s *Summ) fnMust(fn *ssa.Function, b *binding, depth int) bool {
 	ev := s.mustEvents(fn, b, depth)
 	res := false
 	if len(ev) > 0 {
-		bypass, _ := s.bypassPath(fn, entryOf(fn), ev, constEdgeBlocker(b.env()))
+		bypass, _ := s.bypassPath(fn, entryOf(fn), ev, orEdge(constEdgeBlocker(b.env()), s.ExtraBlocked))
 		res = bypass == nil
 	}
 	if res {
